@@ -54,6 +54,7 @@ import (
 	"log/slog"
 	"maps"
 	"net/http"
+	"slices"
 	"time"
 
 	"github.com/bartventer/httpcache/internal"
@@ -478,6 +479,15 @@ func (r *transport) backgroundRevalidate(
 			errc <- req.Context().Err()
 			return
 		default:
+		}
+		// Other variants may have been stored while the origin was being asked:
+		// update the index as it is now, not the one read when the stale
+		// response was served.
+		if current, err := r.cache.GetRefs(urlKey); err == nil {
+			refs = current
+			refIndex = slices.IndexFunc(refs, func(ref *internal.ResponseRef) bool {
+				return ref.ResponseID == storedID
+			})
 		}
 		revalCtx := internal.RevalidationContext{
 			URLKey:    urlKey,
